@@ -621,4 +621,68 @@ def replay(env, vc, model):
                 posoargs=poso, kwoargs=kwo, violated=[list(b) for b in (hit or bad)])
 
 
-crosscheck = None
+def crosscheck(env, r):
+    """differential check for _prepare / __call__: the real _PokTranslator on a compiled twin under one model"""
+    mode = env['mode']
+    if mode not in ('prepare', 'call'):
+        return None
+    s = r.ctx.solver
+    if s.check() != z3.sat:
+        return 'path condition not satisfiable at path end'
+    model = s.model()
+    import inspect
+    from vf.concrete import Concretizer, real_sigtools, make_function
+    real_sigtools()
+    from sigtools import modifiers, specifiers
+    conc = Concretizer(model)
+    info = env['info']
+    specs = conc.param_specs(info)
+    poso = [conc.name(n) for n in env['poso']]
+    kwo = [conc.name(n) for n in env['kwo']]
+    twin = make_function(specs, 'wrapped', body='return locals()')
+    try:
+        deco = modifiers._PokTranslator(twin, posoargs=poso, kwoargs=kwo)
+        nat = ('return', deco)
+    except Exception as e:
+        nat = ('raise', type(e).__name__)
+    prep = env['prepared']
+    if prep[0] == 'raise':
+        return None if nat == ('raise', prep[1].typname) else '_prepare: symbolic raise %s, native %r (posoargs=%r kwoargs=%r on %s)' % (prep[1].typname, nat, poso, kwo, inspect.signature(twin))
+    if nat[0] == 'raise':
+        return '_prepare: symbolic return, native raise %s (posoargs=%r kwoargs=%r on %s)' % (nat[1], poso, kwo, inspect.signature(twin))
+    adv = env['self']._d['__signature__']
+    mine = [(conc.name(p._d['_name']), p._d['_kind']) for p in adv._d['_parameters'].plist]
+    if not (poso or kwo):
+        return None
+    theirs = [(p.name, int(p.kind)) for p in specifiers.signature(nat[1]).parameters.values()]
+    if mine != theirs:
+        return '_prepare: advertised %r, native %r' % (mine, theirs)
+    if mode == 'call':
+        args = tuple(100 + i for i in range(len(env['args'])))
+        kw = {conc.name(k): 200 + i for i, k in enumerate(env['keys'])}
+        try:
+            out = ('return', nat[1](*args, **kw))
+        except TypeError:
+            out = ('raise', 'TypeError')
+        if r.outcome == 'raise':
+            if out != ('raise', r.exc.typname):
+                return '__call__ *%r **%r: symbolic raise %s, native %r' % (args, kw, r.exc.typname, out)
+        else:
+            # the interpreted translator handed (a2, kw2) to the wrapped function: the native twin binds or raises
+            a2, kw2 = env['func'].calls[0]
+            vmap = {id(v): 100 + i for i, v in enumerate(env['args'])}
+            vmap.update({id(v): 200 + i for i, v in enumerate(env['vals'])})
+
+            def cv(x):
+                if id(x) in vmap:
+                    return vmap[id(x)]
+                if isinstance(x, MV):
+                    return conc.val(x.val)
+                return '?'
+            try:
+                exp = ('return', twin(*[cv(x) for x in a2], **{conc.name(k): cv(v) for k, v in kw2}))
+            except TypeError:
+                exp = ('raise', 'TypeError')
+            if exp != out:
+                return '__call__ *%r **%r: interpreted translator calls the wrapped function as %r, natively the result is %r' % (args, kw, exp, out)
+    return None
